@@ -2,6 +2,7 @@ package harness
 
 import (
 	"fmt"
+	"github.com/enbility/spine-go/util"
 	"sort"
 	"strings"
 	"time"
@@ -26,12 +27,15 @@ type clientRef struct {
 }
 
 type c10Data struct {
-	a        *actor
-	ev       *EventLog
-	refs     []*clientRef
-	approval []*LFeat
-	drops    map[string][]uint64 // peer -> RemovedAt stamps
-	lookups  []string
+	a         *actor
+	ev        *EventLog
+	refs      []*clientRef
+	approval  []*LFeat
+	drops     map[string][]uint64 // peer -> RemovedAt stamps
+	lookups   []string
+	pn        *Peer // the peer without device address
+	pnSrv     *LFeat
+	pnPending int
 }
 
 //go:norace
@@ -84,6 +88,68 @@ func init() {
 			for _, p := range pr.Peers {
 				p := p
 				w.Go("script:"+p.Name, func() { a.run(p, 4+w.T.Choose(8, "nops")) })
+			}
+			// a peer whose discovery reply never arrives (net.drop): the node never learns its device
+			// address. It announces its entity by a notification, binds, writes to a feature that
+			// asks for approval and loses its connection with the write pending (seed C10-g): its
+			// pending approval goes with the connection like everybody else's
+			if w.T.Bool(1, 3, "peer-without-device-address") {
+				// (it uses a server feature of its own, outside the registry model of the other peers)
+				pnEnt := pr.L.NewLocalEntity([]uint{7}, model.EntityTypeTypeCEM, 0)
+				pnSrv := pnEnt.AddFeature(model.FeatureTypeTypeLoadControl, model.RoleTypeServer, paletteFor(model.FeatureTypeTypeLoadControl)...)
+				pr.L.AddEntity(pnEnt)
+				_ = pnSrv.F.AddWriteApprovalCallback(func(msg *api.Message) {
+					w.Logf("approval requested for %s (application stays silent)", AddrStr(pnSrv.F.Address()))
+					w.Fault("app.silent")
+				})
+				pnSrv.F.SetWriteApprovalTimeout([]time.Duration{time.Second, 5 * time.Second}[w.T.Choose(2, "pn-approval-timeout")])
+				d.pnSrv = pnSrv
+				pn := w.NewPeer("PN", "d:_i:PN", pr.L)
+				stdPeerTree(pn, false)
+				pn.AutoDD = false
+				pn.Connect()
+				d.pn = pn
+				w.Fault("net.drop")
+				w.Go("script:PN", func() {
+					sf := pnSrv
+					added := model.NetworkManagementStateChangeTypeAdded
+					cmd := model.CmdType{
+						Function:                            util.Ptr(model.FunctionTypeNodeManagementDetailedDiscoveryData),
+						Filter:                              []model.FilterType{*model.NewFilterTypePartial()},
+						NodeManagementDetailedDiscoveryData: pn.DiscoveryData([]*PEnt{pn.Ents[1]}, &added, true),
+					}
+					pn.Await(pn.SendCmd(pn.NM().Address(), pn.LocalNM(), model.CmdClassifierTypeNotify, nil, cmd, "entity-announced-without-discovery-reply"))
+					cf := a.clientFor(pn, sf)
+					c := pn.SendBind(cf, sf.Address(), sf.Type, false, "bind")
+					pn.Await(c)
+					if !okResult(pn, c) {
+						return
+					}
+					var fn *PFunc
+					for i := range sf.Funcs {
+						if sf.Funcs[i].W {
+							fn = &sf.Funcs[i]
+						}
+					}
+					if fn == nil {
+						return
+					}
+					info := fnByName[fn.Fn]
+					wcmd := model.CmdType{}
+					SetCmdData(&wcmd, fn.Fn, w.GenSimpleList(info, 1))
+					pn.Await(pn.SendCmd(cf.Address(), sf.Address(), model.CmdClassifierTypeWrite, util.Ptr(true), wcmd, "write-pending"))
+					for k := w.T.Choose(6, "pn-delay"); k > 0; k-- {
+						w.Yield("pn-delay")
+					}
+					d.pnPending = len(spine.VerifPendingApprovals(sf.F)[pn.Conn.Ski])
+					w.Logf("fault conn.drop PN (pending approvals: %d)", d.pnPending)
+					if pr.L.Disconnect(pn.Name) {
+						w.Fault("conn.drop")
+						if d.pnPending > 0 {
+							w.Probe("c10-address-less-peer-removed-with-pending-write")
+						}
+					}
+				})
 			}
 			// local client features subscribe / bind to the peers' server features
 			if len(pr.Clients) > 0 {
@@ -275,8 +341,12 @@ func init() {
 				if fam.single {
 					et = api.EventTypeBindingChange
 				}
-				adds := d.ev.Count(et, api.ElementChangeAdd, "")
-				rems := d.ev.Count(et, api.ElementChangeRemove, "")
+				// (events of the peers the registry model follows; PN has its own feature and checks)
+				adds, rems := 0, 0
+				for _, p := range pr.Peers {
+					adds += d.ev.Count(et, api.ElementChangeAdd, p.Conn.Ski)
+					rems += d.ev.Count(et, api.ElementChangeRemove, p.Conn.Ski)
+				}
 				if adds != granted {
 					w.Violate("C10/"+fam.name+"-add-events", "%d %s-added events for %d granted requests", adds, fam.name, granted)
 				}
@@ -306,6 +376,19 @@ func init() {
 				for _, p := range pr.Peers {
 					if p.Conn.Closed && len(pend[p.Conn.Ski]) > 0 {
 						w.Violate("C10/pending-approval-survives-removal", "feature %s still has pending approvals %v for removed %s", AddrStr(sf.F.Address()), pend[p.Conn.Ski], p.Name)
+					}
+				}
+			}
+			if pn := d.pn; pn != nil && pn.Conn.Closed && pn.Conn.RemovedAt != 0 {
+				for _, sf := range []*LFeat{d.pnSrv} {
+					if pend := spine.VerifPendingApprovals(sf.F)[pn.Conn.Ski]; len(pend) > 0 {
+						w.Violate("C10/pending-approval-survives-removal", "feature %s still has pending approvals %v for the removed PN (a peer whose device address never became known)", AddrStr(sf.F.Address()), pend)
+					}
+				}
+				for _, s := range pn.Conn.Out {
+					// (its write had been handled before the removal began: nothing of it was in flight)
+					if s.Stale && s.Seq > pn.Conn.RemovedAt && d.pnPending > 0 {
+						w.Violate("C10/write-to-removed-connection", "%s wrote to the removed connection of PN at %d (removed at %d): %s", s.Task, s.Seq, pn.Conn.RemovedAt, DescribeDatagram(s.D, s.Raw))
 					}
 				}
 			}
